@@ -91,3 +91,51 @@ var JSReservedWords = set(`
  await break case catch class const continue debugger default delete do else enum export extends false finally for
  function if import in instanceof new null return super switch this throw true try typeof var void while with yield
  let static implements interface package private protected public`)
+
+// JSSlotMinPrec: the minimum grammar level at which the printer must print the expression
+// in a given AST slot, i.e. the non-terminal ECMA-262 (2022) has at that position:
+// Expression → OpExpr; AssignmentExpression → OpAssign; ShortCircuitExpression → OpCoalesce;
+// LeftHandSideExpression → OpLHS; MemberExpression | CallExpression → OpCall;
+// NewExpression operand → OpNew. Printing a slot with a LOWER level than the grammar's
+// drops parentheses the reader needs (`[(a,b)]` → `[a,b]`); a higher level only adds some.
+// Keys are "<struct type of parse/v2/js>.<field>".
+var JSSlotMinPrec = map[string]string{
+	"ExprStmt.Value":         "OpExpr", // §14.5 ExpressionStatement: Expression
+	"IfStmt.Cond":            "OpExpr", // §14.6
+	"ReturnStmt.Value":       "OpExpr", // §14.10
+	"WithStmt.Cond":          "OpExpr", // §14.11
+	"DoWhileStmt.Cond":       "OpExpr", // §14.7.2
+	"WhileStmt.Cond":         "OpExpr", // §14.7.3
+	"ForStmt.Init":           "OpExpr", // §14.7.4 for ( Expression[~In]opt ;
+	"ForStmt.Cond":           "OpExpr",
+	"ForStmt.Post":           "OpExpr",
+	"ForInStmt.Init":         "OpLHS",  // §14.7.5 for ( LeftHandSideExpression in
+	"ForInStmt.Value":        "OpExpr", //          in Expression )
+	"ForOfStmt.Init":         "OpLHS",
+	"ForOfStmt.Value":        "OpAssign", //          of AssignmentExpression )
+	"SwitchStmt.Init":        "OpExpr",   // §14.12
+	"CaseClause.Cond":        "OpExpr",
+	"ThrowStmt.Value":        "OpExpr",   // §14.14
+	"ExportStmt.Decl":        "OpAssign", // §16.2.3 export default AssignmentExpression
+	"Arg.Value":              "OpAssign", // §13.3 ArgumentList
+	"Element.Value":          "OpAssign", // §13.2.4 ElementList
+	"Property.Value":         "OpAssign", // §13.2.5 PropertyDefinition
+	"Property.Init":          "OpAssign", //          CoverInitializedName
+	"PropertyName.Computed":  "OpAssign", //         ComputedPropertyName
+	"BindingElement.Default": "OpAssign", // §14.3.3 Initializer
+	"Field.Init":             "OpAssign", // §15.7 FieldDefinition Initializer
+	"ClassDecl.Extends":      "OpLHS",    // §15.7 ClassHeritage: LeftHandSideExpression
+	"TemplatePart.Expr":      "OpExpr",   // §13.2.8 TemplateMiddleList: Expression
+	"TemplateExpr.Tag":       "OpCall",   // §13.3 MemberExpression / CallExpression TemplateLiteral
+	"NewExpr.X":              "OpNew",    // §13.3 new NewExpression / new MemberExpression Arguments
+	"YieldExpr.X":            "OpAssign", // §15.5 yield AssignmentExpression
+	"CallExpr.X":             "OpCall",
+	"DotExpr.X":              "OpCall",
+	"IndexExpr.X":            "OpCall",
+	"IndexExpr.Y":            "OpExpr",     // [ Expression ]
+	"CondExpr.Cond":          "OpCoalesce", // §13.14 ShortCircuitExpression ? … : …
+	"CondExpr.X":             "OpAssign",
+	"CondExpr.Y":             "OpAssign",
+	"CommaExpr.List":         "OpAssign", // §13.16 Expression , AssignmentExpression
+	"GroupExpr.X":            "OpExpr",   // ( Expression )
+}
